@@ -24,6 +24,11 @@ pub enum Kind {
     Tag,
     /// always fails, and the failure is itself a `reval::Error` (the `param.try_into()?` idiom)
     ER,
+    /// returns a Float NaN (a value that is not equal to itself)
+    NaN,
+    /// returns the Int 0 / the empty string (values a sloppy implementation might treat as "false" or "nothing")
+    Zero,
+    Empty,
 }
 
 #[derive(Clone, Debug)]
@@ -88,6 +93,9 @@ pub fn outcome_of(kind: Kind, name: &str, arg: &Value, fault: bool, j: usize) ->
         Kind::N => Value::None,
         Kind::V => arg.clone(),
         Kind::Tag => Value::Vec(vec![Value::String(name.to_string()), arg.clone()]),
+        Kind::NaN => Value::Float(f64::NAN),
+        Kind::Zero => Value::Int(0),
+        Kind::Empty => Value::String(String::new()),
         Kind::E | Kind::ER => unreachable!(),
     })
 }
